@@ -5,9 +5,11 @@
    these theorems say WHICH cells are accumulated first: discs around the tower, half planes perpendicular to the
    wind, strips along the wind axis, cones about the upwind direction.
    This file contains only statements, `exact`, and Print Assumptions.  All theorems are over Coq's reals
-   (exact arithmetic, standard-library real axioms only; no numerical tactic).  Theorems about upwind / crosswind
-   assume a non-zero wind (Python divides by speed = 0 there: NaN); the sector theorems that speak of an angle assume
-   cell <> tower and a non-zero wind (C20_sector_at_tower says what the code returns at the tower). *)
+   (exact arithmetic, standard-library real axioms only; no numerical tactic).  Each theorem is the conjunction of the
+   separately quantified clauses about one function (one Print Assumptions over the reals costs about a second).
+   Clauses about upwind / crosswind assume a non-zero wind (Python divides by speed = 0 there: NaN); the sector clauses
+   that speak of an angle assume cell <> tower and a non-zero wind (C20_sector_all_inputs says what the code returns
+   at the tower). *)
 From Coq Require Import Reals.
 From BL Require Import Model.KM Model.SourceAreaBase Proofs.SourceAreaBaseProofs.
 Open Scope R_scope.
@@ -17,125 +19,113 @@ Theorem C20_contribution_identity : forall f : R, sa_contribution f = f.
 Proof. exact contribution_identity. Qed.
 
 (* ---- circular: g = -(squared distance to the tower) *)
-Theorem C20_circular_is_minus_dist2 : forall x y xm ym : R,
-  sa_circular x y xm ym = - ((x - xm) * (x - xm) + (y - ym) * (y - ym)) /\
-  sa_circular x y xm ym = - (dist x y xm ym * dist x y xm ym).
-Proof. exact circular_is_minus_dist2. Qed.
-
-(* a cell has the larger g iff it is nearer to the tower ... *)
-Theorem C20_circular_order : forall x1 y1 x2 y2 xm ym : R,
-  sa_circular x2 y2 xm ym < sa_circular x1 y1 xm ym <-> dist x1 y1 xm ym < dist x2 y2 xm ym.
-Proof. exact circular_order. Qed.
-
-(* ... so every super-level set is an open disc around the tower *)
-Theorem C20_circular_level_set_is_disc : forall x y xm ym r : R, 0 <= r ->
-  (- (r * r) < sa_circular x y xm ym <-> dist x y xm ym < r).
-Proof. exact circular_disc. Qed.
-
-(* turning the cell about the tower by any angle leaves g unchanged *)
-Theorem C20_circular_rotation_invariant : forall a x y xm ym : R,
-  sa_circular (turn_x a x y xm ym) (turn_y a x y xm ym) xm ym = sa_circular x y xm ym.
-Proof. exact circular_turn. Qed.
+Theorem C20_circular_is_minus_dist2 :
+  (* the formula *)
+  (forall x y xm ym : R,
+     sa_circular x y xm ym = - ((x - xm) * (x - xm) + (y - ym) * (y - ym)) /\
+     sa_circular x y xm ym = - (dist x y xm ym * dist x y xm ym)) /\
+  (* a cell has the larger g iff it is nearer to the tower ... *)
+  (forall x1 y1 x2 y2 xm ym : R,
+     sa_circular x2 y2 xm ym < sa_circular x1 y1 xm ym <-> dist x1 y1 xm ym < dist x2 y2 xm ym) /\
+  (* ... so every super-level set is an open disc around the tower *)
+  (forall x y xm ym r : R, 0 <= r ->
+     (- (r * r) < sa_circular x y xm ym <-> dist x y xm ym < r)) /\
+  (* turning the cell about the tower by any angle leaves g unchanged *)
+  (forall a x y xm ym : R,
+     sa_circular (turn_x a x y xm ym) (turn_y a x y xm ym) xm ym = sa_circular x y xm ym).
+Proof. exact (conj circular_is_minus_dist2 (conj circular_order (conj circular_disc circular_turn))). Qed.
 
 (* ---- upwind: g = signed coordinate of the cell along the wind vector *)
-Theorem C20_upwind_is_projection : forall x y xm ym u v : R, 0 < u * u + v * v ->
-  sa_upwind x y xm ym u v = ((x - xm) * u + (y - ym) * v) / sqrt (u * u + v * v).
-Proof. exact upwind_is_projection. Qed.
-
-Theorem C20_upwind_scale_invariant : forall k x y xm ym u v : R, 0 < k -> 0 < u * u + v * v ->
-  sa_upwind x y xm ym (k * u) (k * v) = sa_upwind x y xm ym u v.
-Proof. exact upwind_scale. Qed.
-
-Theorem C20_upwind_reversal : forall x y xm ym u v : R, 0 < u * u + v * v ->
-  sa_upwind x y xm ym (- u) (- v) = - sa_upwind x y xm ym u v.
-Proof. exact upwind_reversal. Qed.
-
-(* g of the cell = g of its orthogonal projection on the wind axis through the tower ... *)
-Theorem C20_upwind_of_projected_cell : forall x y xm ym u v : R, 0 < u * u + v * v ->
-  sa_upwind (foot_x x y xm ym u v) (foot_y x y xm ym u v) xm ym u v = sa_upwind x y xm ym u v.
-Proof. exact upwind_of_foot. Qed.
-
-(* ... and moving the cell perpendicular to the wind does not change g: the level sets are the lines
-   perpendicular to the wind, the super-level sets half planes *)
-Theorem C20_upwind_level_sets_perpendicular : forall t x y xm ym u v : R, 0 < u * u + v * v ->
-  sa_upwind (x - t * v) (y + t * u) xm ym u v = sa_upwind x y xm ym u v.
-Proof. exact upwind_perp_shift. Qed.
+Theorem C20_upwind_is_projection :
+  (* the formula: scalar product with the unit wind vector *)
+  (forall x y xm ym u v : R, 0 < u * u + v * v ->
+     sa_upwind x y xm ym u v = ((x - xm) * u + (y - ym) * v) / sqrt (u * u + v * v)) /\
+  (* unchanged by a positive scaling of the wind *)
+  (forall k x y xm ym u v : R, 0 < k -> 0 < u * u + v * v ->
+     sa_upwind x y xm ym (k * u) (k * v) = sa_upwind x y xm ym u v) /\
+  (* changes sign when the wind is reversed *)
+  (forall x y xm ym u v : R, 0 < u * u + v * v ->
+     sa_upwind x y xm ym (- u) (- v) = - sa_upwind x y xm ym u v) /\
+  (* g of the cell = g of its orthogonal projection on the wind axis through the tower ... *)
+  (forall x y xm ym u v : R, 0 < u * u + v * v ->
+     sa_upwind (foot_x x y xm ym u v) (foot_y x y xm ym u v) xm ym u v = sa_upwind x y xm ym u v) /\
+  (* ... and moving the cell perpendicular to the wind does not change g: the level sets are the lines
+     perpendicular to the wind, the super-level sets half planes *)
+  (forall t x y xm ym u v : R, 0 < u * u + v * v ->
+     sa_upwind (x - t * v) (y + t * u) xm ym u v = sa_upwind x y xm ym u v).
+Proof.
+  exact (conj upwind_is_projection (conj upwind_scale (conj upwind_reversal (conj upwind_of_foot upwind_perp_shift)))).
+Qed.
 
 (* ---- crosswind: g = -(distance from the cell to the wind axis through the tower)^2 *)
-Theorem C20_crosswind_is_minus_perp2 : forall x y xm ym u v : R, 0 < u * u + v * v ->
-  sa_crosswind x y xm ym u v = - dist2 x y (foot_x x y xm ym u v) (foot_y x y xm ym u v) /\
-  sa_crosswind x y xm ym u v
-  = - (((y - ym) * u - (x - xm) * v) * ((y - ym) * u - (x - xm) * v) / (u * u + v * v)).
-Proof. exact (fun x y xm ym u v H => conj (crosswind_is_minus_perp2 x y xm ym u v H) (crosswind_ratio x y xm ym u v H)). Qed.
+Theorem C20_crosswind_is_minus_perp2 :
+  (* minus the squared distance to the foot of the perpendicular on the axis; as a ratio *)
+  (forall x y xm ym u v : R, 0 < u * u + v * v ->
+     sa_crosswind x y xm ym u v = - dist2 x y (foot_x x y xm ym u v) (foot_y x y xm ym u v) /\
+     sa_crosswind x y xm ym u v
+     = - (((y - ym) * u - (x - xm) * v) * ((y - ym) * u - (x - xm) * v) / (u * u + v * v))) /\
+  (* the foot is the nearest point of the axis: no point tower + t * wind_hat is nearer *)
+  (forall t x y xm ym u v : R, 0 < u * u + v * v ->
+     - sa_crosswind x y xm ym u v
+     <= dist2 x y (xm + t * (u / sa_speed u v)) (ym + t * (v / sa_speed u v))) /\
+  (* Pythagoras: along^2 + across^2 = distance^2 *)
+  (forall x y xm ym u v : R, 0 < u * u + v * v ->
+     sa_upwind x y xm ym u v * sa_upwind x y xm ym u v + - sa_crosswind x y xm ym u v = dist2 x y xm ym) /\
+  (* unchanged by reversing the wind and by any non-zero scaling of it *)
+  (forall x y xm ym u v : R, 0 < u * u + v * v ->
+     sa_crosswind x y xm ym (- u) (- v) = sa_crosswind x y xm ym u v) /\
+  (forall k x y xm ym u v : R, k <> 0 -> 0 < u * u + v * v ->
+     sa_crosswind x y xm ym (k * u) (k * v) = sa_crosswind x y xm ym u v) /\
+  (* mirror symmetry about the wind axis: across is kept, along is kept *)
+  (forall x y xm ym u v : R, 0 < u * u + v * v ->
+     sa_crosswind (mirror_x x y xm ym u v) (mirror_y x y xm ym u v) xm ym u v = sa_crosswind x y xm ym u v /\
+     sa_upwind (mirror_x x y xm ym u v) (mirror_y x y xm ym u v) xm ym u v = sa_upwind x y xm ym u v).
+Proof.
+  exact (conj (fun x y xm ym u v H => conj (crosswind_is_minus_perp2 x y xm ym u v H) (crosswind_ratio x y xm ym u v H))
+        (conj crosswind_is_min_distance (conj pythagoras (conj crosswind_reversal (conj crosswind_scale
+        (fun x y xm ym u v H => conj (crosswind_mirror x y xm ym u v H) (upwind_mirror x y xm ym u v H))))))).
+Qed.
 
-(* the foot of the perpendicular is the nearest point of the axis: no point tower + t * wind_hat is nearer *)
-Theorem C20_crosswind_is_min_distance : forall t x y xm ym u v : R, 0 < u * u + v * v ->
-  - sa_crosswind x y xm ym u v
-  <= dist2 x y (xm + t * (u / sa_speed u v)) (ym + t * (v / sa_speed u v)).
-Proof. exact crosswind_is_min_distance. Qed.
+(* ---- sector: g = -(angle between cell - tower and the upwind direction -(u, v)), cell <> tower, wind <> 0 *)
+Theorem C20_sector_is_minus_angle :
+  (* cosine of the result = cosine of the angle between the two directions *)
+  (forall x y xm ym u v : R, 0 < dist2 x y xm ym -> 0 < u * u + v * v ->
+     cos (sa_sector x y xm ym u v)
+     = ((x - xm) * (- u) + (y - ym) * (- v)) / (dist x y xm ym * sqrt (u * u + v * v))) /\
+  (* the result is minus that angle (in [0, pi]) *)
+  (forall x y xm ym u v : R, 0 < dist2 x y xm ym -> 0 < u * u + v * v ->
+     sa_sector x y xm ym u v = - acos (up_cosangle x y xm ym u v)) /\
+  (* the two nested arctan2 of the code are one arctan2 of (cross, dot) *)
+  (forall x y xm ym u v : R, 0 < dist2 x y xm ym -> 0 < u * u + v * v ->
+     sa_sector x y xm ym u v = - Rabs (atan2 (up_cross x y xm ym u v) (up_dot x y xm ym u v))) /\
+  (* g attains its maximum 0 exactly on the open ray from the tower into the upwind direction *)
+  (forall x y xm ym u v : R, 0 < dist2 x y xm ym -> 0 < u * u + v * v ->
+     (sa_sector x y xm ym u v = 0 <-> on_upwind_ray x y xm ym u v)) /\
+  (* super-level sets are open cones about the upwind direction: angle < alpha *)
+  (forall x y xm ym u v alpha : R, 0 < dist2 x y xm ym -> 0 < u * u + v * v -> 0 <= alpha <= PI ->
+     (- alpha < sa_sector x y xm ym u v <-> cos alpha < up_cosangle x y xm ym u v)) /\
+  (* mirror symmetry about the wind axis *)
+  (forall x y xm ym u v : R, 0 < dist2 x y xm ym -> 0 < u * u + v * v ->
+     sa_sector (mirror_x x y xm ym u v) (mirror_y x y xm ym u v) xm ym u v = sa_sector x y xm ym u v).
+Proof.
+  exact (conj sector_cos (conj sector_is_minus_angle (conj sector_closed_form (conj sector_zero_iff
+        (conj sector_cone sector_mirror))))).
+Qed.
 
-(* along^2 + across^2 = distance^2 *)
-Theorem C20_pythagoras : forall x y xm ym u v : R, 0 < u * u + v * v ->
-  sa_upwind x y xm ym u v * sa_upwind x y xm ym u v + - sa_crosswind x y xm ym u v = dist2 x y xm ym.
-Proof. exact pythagoras. Qed.
-
-(* unchanged by reversing the wind and by any non-zero scaling of it *)
-Theorem C20_crosswind_reversal_scale : forall x y xm ym u v : R, 0 < u * u + v * v ->
-  sa_crosswind x y xm ym (- u) (- v) = sa_crosswind x y xm ym u v /\
-  (forall k : R, k <> 0 -> sa_crosswind x y xm ym (k * u) (k * v) = sa_crosswind x y xm ym u v).
-Proof. exact (fun x y xm ym u v H => conj (crosswind_reversal x y xm ym u v H) (fun k Hk => crosswind_scale k x y xm ym u v Hk H)). Qed.
-
-(* mirror symmetry about the wind axis: across is kept, along is kept *)
-Theorem C20_crosswind_reflection : forall x y xm ym u v : R, 0 < u * u + v * v ->
-  sa_crosswind (mirror_x x y xm ym u v) (mirror_y x y xm ym u v) xm ym u v = sa_crosswind x y xm ym u v /\
-  sa_upwind (mirror_x x y xm ym u v) (mirror_y x y xm ym u v) xm ym u v = sa_upwind x y xm ym u v.
-Proof. exact (fun x y xm ym u v H => conj (crosswind_mirror x y xm ym u v H) (upwind_mirror x y xm ym u v H)). Qed.
-
-(* ---- sector: g = -(angle between cell - tower and the upwind direction -(u, v)) *)
-(* every input, degenerate ones included *)
-Theorem C20_sector_range : forall x y xm ym u v : R, - PI <= sa_sector x y xm ym u v <= 0.
-Proof. exact sector_range. Qed.
-
-Theorem C20_sector_cos : forall x y xm ym u v : R, 0 < dist2 x y xm ym -> 0 < u * u + v * v ->
-  cos (sa_sector x y xm ym u v)
-  = ((x - xm) * (- u) + (y - ym) * (- v)) / (dist x y xm ym * sqrt (u * u + v * v)).
-Proof. exact sector_cos. Qed.
-
-Theorem C20_sector_is_minus_angle : forall x y xm ym u v : R, 0 < dist2 x y xm ym -> 0 < u * u + v * v ->
-  sa_sector x y xm ym u v = - acos (up_cosangle x y xm ym u v).
-Proof. exact sector_is_minus_angle. Qed.
-
-(* the two nested arctan2 of the code are one arctan2 of (cross, dot) *)
-Theorem C20_sector_closed_form : forall x y xm ym u v : R, 0 < dist2 x y xm ym -> 0 < u * u + v * v ->
-  sa_sector x y xm ym u v = - Rabs (atan2 (up_cross x y xm ym u v) (up_dot x y xm ym u v)).
-Proof. exact sector_closed_form. Qed.
-
-(* g attains its maximum 0 exactly on the open ray from the tower into the upwind direction *)
-Theorem C20_sector_zero_iff_upwind_ray : forall x y xm ym u v : R, 0 < dist2 x y xm ym -> 0 < u * u + v * v ->
-  (sa_sector x y xm ym u v = 0 <-> on_upwind_ray x y xm ym u v).
-Proof. exact sector_zero_iff. Qed.
-
-(* super-level sets are open cones about the upwind direction: angle < alpha *)
-Theorem C20_sector_level_set_is_cone : forall x y xm ym u v alpha : R,
-  0 < dist2 x y xm ym -> 0 < u * u + v * v -> 0 <= alpha <= PI ->
-  (- alpha < sa_sector x y xm ym u v <-> cos alpha < up_cosangle x y xm ym u v).
-Proof. exact sector_cone. Qed.
-
-Theorem C20_sector_reflection : forall x y xm ym u v : R, 0 < dist2 x y xm ym -> 0 < u * u + v * v ->
-  sa_sector (mirror_x x y xm ym u v) (mirror_y x y xm ym u v) xm ym u v = sa_sector x y xm ym u v.
-Proof. exact sector_mirror. Qed.
-
-(* positive scaling of the wind / of the displacement from the tower (all inputs) *)
-Theorem C20_sector_scale_invariant : forall k x y xm ym u v : R, 0 < k ->
-  sa_sector x y xm ym (k * u) (k * v) = sa_sector x y xm ym u v /\
-  sa_sector (xm + k * (x - xm)) (ym + k * (y - ym)) xm ym u v = sa_sector x y xm ym u v.
-Proof. exact (fun k x y xm ym u v H => conj (sector_scale_wind k x y xm ym u v H) (sector_scale_displacement k x y xm ym u v H)). Qed.
-
-(* what the code returns AT the tower (arctan2(0,0) = 0): minus the absolute direction angle of the upwind vector —
-   an artefact of the formula, not an angle between two directions *)
-Theorem C20_sector_at_tower : forall xm ym u v : R,
-  sa_sector xm ym xm ym u v = - Rabs (atan2 (- v) (- u)).
-Proof. exact sector_at_tower. Qed.
+(* ---- sector, every input (degenerate ones included) *)
+Theorem C20_sector_all_inputs :
+  (forall x y xm ym u v : R, - PI <= sa_sector x y xm ym u v <= 0) /\
+  (* positive scaling of the wind / of the displacement from the tower *)
+  (forall k x y xm ym u v : R, 0 < k ->
+     sa_sector x y xm ym (k * u) (k * v) = sa_sector x y xm ym u v /\
+     sa_sector (xm + k * (x - xm)) (ym + k * (y - ym)) xm ym u v = sa_sector x y xm ym u v) /\
+  (* what the code returns AT the tower (arctan2(0,0) = 0): minus the absolute direction angle of the upwind vector —
+     an artefact of the formula, not an angle between two directions *)
+  (forall xm ym u v : R, sa_sector xm ym xm ym u v = - Rabs (atan2 (- v) (- u))).
+Proof.
+  exact (conj sector_range (conj (fun k x y xm ym u v H => conj (sector_scale_wind k x y xm ym u v H)
+        (sector_scale_displacement k x y xm ym u v H)) sector_at_tower)).
+Qed.
 
 (* non-vacuity: tower (0,0), cell (5,0), wind (3,4): 3 along, 4 across, angle acos(-3/5) off the upwind direction;
    a cell on the upwind ray; the value at the tower for a southward wind *)
@@ -149,25 +139,7 @@ Proof. exact base_examples. Qed.
 
 Goal True. idtac "THEOREM C20_contribution_identity". Abort. Print Assumptions C20_contribution_identity.
 Goal True. idtac "THEOREM C20_circular_is_minus_dist2". Abort. Print Assumptions C20_circular_is_minus_dist2.
-Goal True. idtac "THEOREM C20_circular_order". Abort. Print Assumptions C20_circular_order.
-Goal True. idtac "THEOREM C20_circular_level_set_is_disc". Abort. Print Assumptions C20_circular_level_set_is_disc.
-Goal True. idtac "THEOREM C20_circular_rotation_invariant". Abort. Print Assumptions C20_circular_rotation_invariant.
 Goal True. idtac "THEOREM C20_upwind_is_projection". Abort. Print Assumptions C20_upwind_is_projection.
-Goal True. idtac "THEOREM C20_upwind_scale_invariant". Abort. Print Assumptions C20_upwind_scale_invariant.
-Goal True. idtac "THEOREM C20_upwind_reversal". Abort. Print Assumptions C20_upwind_reversal.
-Goal True. idtac "THEOREM C20_upwind_of_projected_cell". Abort. Print Assumptions C20_upwind_of_projected_cell.
-Goal True. idtac "THEOREM C20_upwind_level_sets_perpendicular". Abort. Print Assumptions C20_upwind_level_sets_perpendicular.
 Goal True. idtac "THEOREM C20_crosswind_is_minus_perp2". Abort. Print Assumptions C20_crosswind_is_minus_perp2.
-Goal True. idtac "THEOREM C20_crosswind_is_min_distance". Abort. Print Assumptions C20_crosswind_is_min_distance.
-Goal True. idtac "THEOREM C20_pythagoras". Abort. Print Assumptions C20_pythagoras.
-Goal True. idtac "THEOREM C20_crosswind_reversal_scale". Abort. Print Assumptions C20_crosswind_reversal_scale.
-Goal True. idtac "THEOREM C20_crosswind_reflection". Abort. Print Assumptions C20_crosswind_reflection.
-Goal True. idtac "THEOREM C20_sector_range". Abort. Print Assumptions C20_sector_range.
-Goal True. idtac "THEOREM C20_sector_cos". Abort. Print Assumptions C20_sector_cos.
 Goal True. idtac "THEOREM C20_sector_is_minus_angle". Abort. Print Assumptions C20_sector_is_minus_angle.
-Goal True. idtac "THEOREM C20_sector_closed_form". Abort. Print Assumptions C20_sector_closed_form.
-Goal True. idtac "THEOREM C20_sector_zero_iff_upwind_ray". Abort. Print Assumptions C20_sector_zero_iff_upwind_ray.
-Goal True. idtac "THEOREM C20_sector_level_set_is_cone". Abort. Print Assumptions C20_sector_level_set_is_cone.
-Goal True. idtac "THEOREM C20_sector_reflection". Abort. Print Assumptions C20_sector_reflection.
-Goal True. idtac "THEOREM C20_sector_scale_invariant". Abort. Print Assumptions C20_sector_scale_invariant.
-Goal True. idtac "THEOREM C20_sector_at_tower". Abort. Print Assumptions C20_sector_at_tower.
+Goal True. idtac "THEOREM C20_sector_all_inputs". Abort. Print Assumptions C20_sector_all_inputs.
